@@ -81,9 +81,12 @@ func (h *holder) block(f func()) {
 			// Take the spot in ch before publishing the acquired status: a concurrent
 			// release that observes acquired receives from ch right away, and must
 			// find our item there rather than one that belongs to another holder.
+			vh("unblock.send", h)
 			h.l.ch <- struct{}{}
+			vh("unblock.sent", h)
 			if !atomic.CompareAndSwapInt64(&h.status, blocked, acquired) {
 				// Released while we were re-acquiring; give the spot back.
+				vh("unblock.giveback", h)
 				<-h.l.ch
 			}
 		}()
